@@ -80,8 +80,10 @@ MUTANTS = [
     ("c14_ppdesc_outside_commit", "C14", "pytrs/parser/plssdesc/plssdesc.py",
      "            self.pp_desc = parser.text\n\n        return tracts",
      "        self.pp_desc = parser.text\n\n        return tracts"),
-    ("c14_tracts_extend", "C14", "pytrs/parser/plssdesc/plssdesc.py",
-     "            self.tracts = tracts\n", "            self.tracts.extend(tracts)\n"),
+    ("c14_noncommit_commits_when_parse_qq", "C14",
+     "pytrs/parser/plssdesc/plssdesc.py",
+     "        tracts = parser.tracts  # a TractList object\n        if commit:",
+     "        tracts = parser.tracts  # a TractList object\n        if commit or (parse_qq and sec_within):"),
     ("c14_parse_complete_outside_commit", "C14", "pytrs/parser/tract/tract.py",
      "        if commit:\n            self.parse_complete = True\n",
      "        self.parse_complete = True\n        if commit:\n"),
@@ -100,8 +102,8 @@ MUTANTS = [
      "        if isinstance(trs, TRS):\n            trs = trs.trs\n        if isinstance(trs, str) and trs in TRS._TRS__CACHE:\n            return TRS._TRS__CACHE[trs]\n        dct = {"),
     ("c15_cache_key_too_coarse", "C15", "pytrs/parser/trs/trs.py",
      "        self.__trs_dict = TRS.__CACHE.get(new_trs, None)",
-     "        self.__trs_dict = TRS.__CACHE.get(str(new_trs).strip().lower(), None)"),
-    ("c15_parse_uses_import_time_default", "C15",
+     "        self.__trs_dict = TRS.__CACHE.get(str(new_trs)[:8], None)"),
+    ("c13_parse_uses_import_time_default", "C13",
      "pytrs/parser/plssdesc/plssdesc.py",
      '            "default_ns": default_ns,\n            "default_ew": default_ew,\n            "ocr_scrub": ocr_scrub,\n            "sec_within"',
      '            "default_ew": default_ew,\n            "ocr_scrub": ocr_scrub,\n            "sec_within"'),
@@ -112,12 +114,12 @@ MUTANTS = [
      "pytrs/parser/plssdesc/plss_preprocess.py",
      "    sec_mo_list = multisec_regex.finditer(text)\n    sec_list = []",
      "    sec_mo_list = multisec_regex.finditer(text)\n    sec_list = _SEC_ACC"),
-    ("c15_freeze_default_at_import", "C15", "pytrs/parser/trs/trs.py",
+    ("c13_freeze_default_at_import", "C13", "pytrs/parser/trs/trs.py",
      "            default_ns=None,\n            default_ew=None,\n            ocr_scrub=False):\n        \"\"\"\n        Build a Twp/Rge/Sec in the standardized format from component",
      "            default_ns=MasterConfig.default_ns,\n            default_ew=None,\n            ocr_scrub=False):\n        \"\"\"\n        Build a Twp/Rge/Sec in the standardized format from component"),
     ("c15_cache_filled_before_complete", "C15", "pytrs/parser/trs/trs.py",
      "        dct = TRS.trs_to_dict(trs)\n        if TRS._USE_CACHE:\n            TRS.__CACHE[trs] = dct\n        return dct",
-     "        dct = {}\n        if TRS._USE_CACHE:\n            TRS.__CACHE[trs] = dct\n        dct.update(TRS.trs_to_dict(trs))\n        return dct"),
+     "        dct = {'trs': trs}\n        if TRS._USE_CACHE:\n            TRS.__CACHE[trs] = dct\n        dct.update(TRS.trs_to_dict(trs))\n        return dct"),
 
     ("c13_segment_reads_attribute", "C13", "pytrs/parser/plssdesc/plssdesc.py",
      '            "segment": segment,', '            "segment": self.segment,'),
@@ -171,6 +173,13 @@ MUTANTS = [
 ]
 
 EXTRA_PATCH = {
+    "c14_flags_not_wiped": (
+        "pytrs/parser/plssdesc/plssdesc.py",
+        "            self.w_flags = []\n            self.e_flags = []\n            self.w_flag_lines = []\n            self.e_flag_lines = []\n",
+        ""),
+    "c15_cache_key_too_coarse": (
+        "pytrs/parser/trs/trs.py",
+        "            TRS.__CACHE[trs] = dct", "            TRS.__CACHE[str(trs)[:8]] = dct"),
     "c15_shared_mutable_default": (
         "pytrs/parser/plssdesc/plss_preprocess.py",
         "def find_sec(text):", "_SEC_ACC = []\n\n\ndef find_sec(text):"),
